@@ -272,12 +272,16 @@ func RuleRegistry(r *Report, c *Codec, dirs []string, rules aspectSet) {
 				continue
 			}
 			mc, okc := l.MsgCode()
+			_, inSpec := want[code]
 			if rules["L6"] {
-				_, inSpec := want[code]
-				r.Check(okc && mc == e.Key && inSpec, "L6", key, pos, "-> "+e.Type,
-					fmt.Sprintf("table key %s constructs %s whose function code is 0x%02x (in protocol table: %v)", code, e.Type, mc, inSpec))
+				note := "-> " + e.Type
+				if !inSpec {
+					note += " (function code not in the protocol table of this checker: exactness checked, layout not)"
+				}
+				r.Check(okc && mc == e.Key, "L6", key, pos, note,
+					fmt.Sprintf("table key %s constructs %s whose function code is 0x%02x", code, e.Type, mc))
 			}
-			if rules["L7"] {
+			if rules["L7"] && inSpec {
 				have := strings.Join(c.layoutSig(l), " ")
 				wantS := strings.Join(want[code], " ")
 				r.Check(have == wantS, "L7", key, c.P.Pos(l.Pos), have, fmt.Sprintf("layout is [%s], protocol says [%s]", have, wantS))
